@@ -30,6 +30,17 @@ CHECKS = {
              "Reaction.string stubbed on instances (message formatting); 'numerical integration keeps invariants to tolerance' is delegated "
              "to LSODA/CVODE and not claimed; one known finding (circular eliminations for >=2 preferred substances)",
         technique=Z + "; sympy->z3 translation validation of the generated eliminations (z3 LRA)", ref="DESIGN.md section 5 C05"),
+    "C14": dict(
+        engine="Z+X", category="other",
+        text="bounded symbolic verification: the real mass_from_composition runs once on a composition with 119 symbolic real counts "
+             "(charge + all 118 elements) and one z3 LRA query proves the result equal, within a per-element tolerance, to sum n_i*W_i - "
+             "q*m_e with W_i from an independently written reference table (covers every table entry, the index<->Z mapping and the sign "
+             "of the electron term at once); Substance.mass (repeated reads, data override) and mass_fractions on symbolic "
+             "coefficients/masses are proved equal to their definitions; atomic_number(symbol/name, any case) is confirmed by CrossHair "
+             "over a symbolic table index",
+        note="reference table ref/atomic_weights.json with tolerance 5e-4 relative (3% for Z>=104); additivity over hydrate parts/groups is "
+             "C01 + the linearity proved here (not re-proved end-to-end); float summation error outside",
+        technique=Z + "; CrossHair for the string lookups", ref="DESIGN.md section 5 C14"),
     "C15": dict(
         engine="Z", category="other",
         text="bounded symbolic verification: split/substance_participation are executed on reactions whose species are symbolic indices "
